@@ -609,9 +609,9 @@ func ZZ_C12_copy_binding_kinds() {
 	if zz.Choose(2) == 1 {
 		via = target.NewEnv() // Set from a descendant scope reaches the nearest binding
 	}
-	op := zz.Choose(4)
+	op := zz.Choose(5)
 	id := []string{"plain", "nil-cell", "int64-cell", "interface-cell"}[kind] + "/" + []string{"copy", "deepcopy"}[zz.Ite(deep, 1, 0)] + "/" +
-		[]string{"set", "set-nil", "define", "delete"}[op] + "/" + []string{"on-original", "on-copy"}[side]
+		[]string{"set", "set-nil", "define", "delete", "store-through-addr"}[op] + "/" + []string{"on-original", "on-copy"}[side]
 	switch op {
 	case 0:
 		err = via.Set("a", w)
@@ -623,6 +623,20 @@ func ZZ_C12_copy_binding_kinds() {
 		err = target.Define("a", w)
 	case 3:
 		target.Delete("a")
+	case 4:
+		// what `p = &a; *p = w` does: a store through the pointer Addr hands out
+		pv, aerr := via.Addr("a")
+		if aerr != nil {
+			return // (a binding that is not a cell has no address: nothing to store through)
+		}
+		if pv.Kind() != reflect.Ptr || pv.IsNil() || !pv.Elem().CanSet() {
+			return
+		}
+		if pv.Elem().Kind() == reflect.Interface || pv.Elem().Kind() == reflect.Int64 {
+			pv.Elem().Set(reflect.ValueOf(w))
+		} else {
+			return
+		}
 	}
 	b1, n1, f1 := read(observed)
 	zz.Assert(f1 && n1 == n0 && (n1 || b1 == b0), "C12.copy-independent/binding-kinds/"+id)
@@ -635,6 +649,8 @@ func ZZ_C12_copy_binding_kinds() {
 		zz.Assert(tf1 && tn1, "C12.copy-binding-kinds/operation-took-effect/"+id)
 	case 3:
 		zz.Assert(!tf1, "C12.copy-binding-kinds/operation-took-effect/"+id)
+	case 4:
+		zz.Assert(tf1 && !tn1 && t1 == w, "C12.copy-binding-kinds/operation-took-effect/"+id)
 	}
 }
 
